@@ -19,7 +19,7 @@ RULE = ("generated invocations over a per-scenario clean directory: existing/mis
         "errors; distinct = digest of (files, argv); non-trivial = at least one error source or >=2 models")
 ASSUMPTIONS = ["the count for invocations mixing error stages is not defined by the property; such invocations are only compared with each other",
                "exit statuses are kept below 256"]
-REQUIRED_MONITORS = ["invocations", "independence_comparisons"]
+REQUIRED_MONITORS = ["invocations", "independence_comparisons", "in_process_histories"]
 BUDGET = {"quick": 60, "thorough": 900}
 
 GOOD = {
@@ -275,11 +275,90 @@ def one(ctx, rng, k):
         shutil.rmtree(d, ignore_errors=True)
 
 
+WRAPPER_HISTORY = r"""
+import json, os, sys
+steps = json.loads(sys.argv[1])
+outs = []
+import tools.compiler as c
+for st in steps:
+    if "write" in st:
+        for path, text in st["write"].items():
+            with open(path, "w") as f:
+                f.write(text)
+        continue
+    try:
+        rc = c.main(list(st["argv"]))
+        outs.append(["return", rc])
+    except SystemExit as e:
+        outs.append(["sysexit", e.code])
+    except BaseException as e:
+        outs.append(["exception", type(e).__name__])
+sys.stderr.flush()
+print("\n@@OUTCOME@@" + json.dumps(outs))
+"""
+
+
+def history(ctx, rng, k):
+    """several invocations of main() in ONE process on the same paths, with the files rewritten in between: every
+    invocation must count the errors of the files as they are at that moment."""
+    d = os.path.join(ctx.work, "c26h_%d" % k)
+    shutil.rmtree(d, ignore_errors=True)
+    os.makedirs(os.path.join(d, "src"))
+    os.makedirs(os.path.join(d, "out"))
+    try:
+        path = os.path.join(d, "src", "F.mo")
+        steps, expected, descr = [], [], []
+        state = None
+        for _ in range(rng.randint(3, 6)):
+            new = rng.choice(["A", "B", "broken", "A"])
+            if new != state or rng.random() < 0.3:
+                text = rng.choice(BROKEN) if new == "broken" else GOOD[new]
+                steps.append({"write": {path: text}})
+                descr.append("write:" + new)
+                state = new
+            target = rng.choice([[], ["-t", "sympy"]])
+            if state == "broken":
+                argv, exp = [os.path.join(d, "src")], 1
+            else:
+                want = rng.choice(["A", "B", None])
+                if want is None:
+                    argv, exp = [os.path.join(d, "src")], 0
+                else:
+                    argv = ["-m", want] + target + ["-o", os.path.join(d, "out"), os.path.join(d, "src")]
+                    exp = 0 if want == state else 1
+            steps.append({"argv": argv})
+            expected.append(["return", exp])
+            descr.append("main(%s)" % " ".join(a.replace(d, ".") for a in argv))
+        p = subprocess.run([sys.executable, "-c", WRAPPER_HISTORY, json.dumps(steps)], cwd=d, env=dict(os.environ),
+                           capture_output=True, text=True, timeout=600)
+        outs = None
+        for line in reversed(p.stdout.splitlines()):
+            if line.startswith("@@OUTCOME@@"):
+                outs = json.loads(line[len("@@OUTCOME@@"):])
+                break
+        ctx.case({"history": descr}, True, {"history": descr} if k < 1 else None)
+        if outs is None:
+            ctx.inconclusive("history subprocess produced no outcome: %s" % (p.stderr or "")[-300:])
+            return
+        ctx.monitor("invocations", len(outs))
+        ctx.monitor("in_process_histories")
+        ctx.cover("history-in-one-process")
+        if outs != expected:
+            i = next(j for j, (a, b) in enumerate(zip(outs, expected)) if a != b)
+            ctx.violation("C26:history-in-one-process:invocation-counts-files-of-an-earlier-invocation" if outs[i][0] == "return" else
+                          "C26:history-in-one-process:outcome-%s" % outs[i][0],
+                          "in one process: %s -> outcomes %s, expected %s" % (descr, outs, expected), {"history": descr})
+    finally:
+        shutil.rmtree(d, ignore_errors=True)
+
+
 def run_shard(ctx):
     for k in range(ctx.n(160, 10000)):
         if ctx.out_of_time():
             break
         ctx.guarded(one, ctx, ctx.rng, k, timeout=600)
+        if k % 3 == 0:
+            ctx.guarded(history, ctx, ctx.rng, k, timeout=600)
 
 
 def replay(ctx, case):
